@@ -90,10 +90,7 @@ var lastPinCid cid.Cid // set by the recording Cluster.Pin (add suite only; requ
 const addFileContent = "hello from the C11 harness: a small file that fits one chunk unless the chunker is tiny\n"
 
 func (h *harness) execAdd(c addCase) (string, error) {
-	s := h.open
-	if c.creds {
-		s = h.auth
-	}
+	s := h.server(c.creds)
 	u := "http://" + s.addr + "/add"
 	if q := c.rawQuery(); q != "" {
 		u += "?" + q
@@ -229,7 +226,7 @@ var addKeys = append([]string{"layout", "format", "chunker", "hash", "cid-versio
 func genAdd(r *common.Rng) addCase {
 	c := addCase{mp: "ok"}
 	c.method, c.segs, c.body, c.rpc = "POST", []string{"add"}, "-", "ok"
-	c.creds = r.Chance(1, 4)
+	c.creds = credsFor(r, 1, 4)
 	c.auth = authFor(r, c.creds)
 	if r.Chance(1, 6) {
 		c.rpc = "err"
@@ -277,21 +274,21 @@ func genAdd(r *common.Rng) addCase {
 func sysAdd() []addCase {
 	var out []addCase
 	r := common.NewRng(13)
-	mk := func(cr bool, au, mp, rpc string, q ...qparam) addCase {
+	mk := func(cr int, au, mp, rpc string, q ...qparam) addCase {
 		c := addCase{mp: mp}
 		c.creds, c.auth, c.method, c.segs, c.body, c.rpc, c.query = cr, au, "POST", []string{"add"}, "-", rpc, q
 		return c
 	}
 	for _, mp := range []string{"ok", "none", "junk"} {
-		for _, a := range []struct {
-			cr bool
-			au string
-		}{{false, "n"}, {true, "n"}, {true, "m0"}, {true, "w0"}, {true, "r0"}} {
-			out = append(out, mk(a.cr, a.au, mp, "ok"))
-			out = append(out, mk(a.cr, a.au, mp, "ok", qparam{key: "stream-channels", class: 'v', val: "false"}))
+		out = append(out, mk(0, "n", mp, "ok"), mk(0, "b.nobody.e", mp, "ok"))
+		for cr := 1; cr <= 2; cr++ {
+			for _, au := range authGrid {
+				out = append(out, mk(cr, au, mp, "ok"))
+				out = append(out, mk(cr, au, mp, "ok", qparam{key: "stream-channels", class: 'v', val: "false"}))
+			}
 		}
 	}
-	out = append(out, mk(false, "n", "ok", "err"), mk(false, "n", "ok", "err", qparam{key: "stream-channels", class: 'v', val: "false"}))
+	out = append(out, mk(0, "n", "ok", "err"), mk(0, "n", "ok", "err", qparam{key: "stream-channels", class: 'v', val: "false"}))
 	for _, k := range addKeys {
 		vals := []qparam{{key: k, class: 'e'}, {key: k, class: 'i', val: "0"}, {key: k, class: 'i', val: "1"}, {key: k, class: 'i', val: "2"}}
 		switch k {
@@ -311,9 +308,9 @@ func sysAdd() []addCase {
 			vals = append(vals, qparam{key: k, class: 'v', val: "true"}, qparam{key: k, class: 'v', val: "false"})
 		}
 		for _, v := range vals {
-			out = append(out, mk(false, "n", "ok", "ok", v))
-			out = append(out, mk(false, "n", "ok", "ok", v, qparam{key: "stream-channels", class: 'v', val: "false"}))
-			out = append(out, mk(true, "w1", "ok", "ok", v))
+			out = append(out, mk(0, "n", "ok", "ok", v))
+			out = append(out, mk(0, "n", "ok", "ok", v, qparam{key: "stream-channels", class: 'v', val: "false"}))
+			out = append(out, mk(1, "b.nobody.p0", "ok", "ok", v))
 		}
 	}
 	for _, k := range pinOptKeys {
@@ -321,15 +318,15 @@ func sysAdd() []addCase {
 			if inv && k == "name" {
 				continue
 			}
-			out = append(out, mk(false, "n", "ok", "ok", optValue(r, k, inv)))
-			out = append(out, mk(false, "n", "ok", "ok", optValue(r, k, inv), qparam{key: "stream-channels", class: 'v', val: "false"}))
+			out = append(out, mk(0, "n", "ok", "ok", optValue(r, k, inv)))
+			out = append(out, mk(0, "n", "ok", "ok", optValue(r, k, inv), qparam{key: "stream-channels", class: 'v', val: "false"}))
 		}
 	}
-	out = append(out, mk(false, "n", "ok", "ok", qparam{key: "hash", class: 'v', val: "sha3-512"}, qparam{key: "cid-version", class: 'v', val: "1"}))
-	out = append(out, mk(false, "n", "ok", "ok", qparam{key: "cid-version", class: 'v', val: "1"}, qparam{key: "raw-leaves", class: 'v', val: "false"}))
-	out = append(out, mk(false, "n", "ok", "ok", qparam{key: "cid-version", class: 'v', val: "1"}, qparam{key: "wrap-with-directory", class: 'v', val: "true"}))
-	out = append(out, mk(false, "n", "ok", "ok", qparam{key: "cid-version", class: 'v', val: "1"}, qparam{key: "chunker", class: 'v', val: "size-10"}))
-	c := mk(false, "n", "ok", "ok", qparam{key: "name", class: 'v', val: "7"}, qparam{key: "replication-min", class: 'v', val: "1"},
+	out = append(out, mk(0, "n", "ok", "ok", qparam{key: "hash", class: 'v', val: "sha3-512"}, qparam{key: "cid-version", class: 'v', val: "1"}))
+	out = append(out, mk(0, "n", "ok", "ok", qparam{key: "cid-version", class: 'v', val: "1"}, qparam{key: "raw-leaves", class: 'v', val: "false"}))
+	out = append(out, mk(0, "n", "ok", "ok", qparam{key: "cid-version", class: 'v', val: "1"}, qparam{key: "wrap-with-directory", class: 'v', val: "true"}))
+	out = append(out, mk(0, "n", "ok", "ok", qparam{key: "cid-version", class: 'v', val: "1"}, qparam{key: "chunker", class: 'v', val: "size-10"}))
+	c := mk(0, "n", "ok", "ok", qparam{key: "name", class: 'v', val: "7"}, qparam{key: "replication-min", class: 'v', val: "1"},
 		qparam{key: "replication-max", class: 'v', val: "2"}, qparam{key: "user-allocations", class: 'v', val: "1,2"},
 		qparam{key: "expire-in", class: 'v', val: "1"}, qparam{key: "origins", class: 'v', val: "1"}, qparam{key: "shard-size", class: 'v', val: "1024"})
 	c.meta = [][2]int{{1, 2}, {7, 7}}
